@@ -79,7 +79,7 @@ prop("C01", ["PepitVerif/Props/C01.lean", "PepitVerif/Math/CvxSem.lean", "PepitV
      streams=[stream("resolve (scripted solver, tagged duals, returned dual value, function-level LMIs, primal mode)", "resolve", 150, 3000),
               stream("tree (symmetrize_dict / prune_dict / constant / remaining terms of check_feasibility on random expressions)", "tree", 150, 3000, offset=73),
               stream("collect+cvx (the real CvxpyWrapper: kinds and residuals of the cvxpy constraints it builds, _recover_dual_values on tagged duals, vs Cvx.emit / Cvx.recover)", "collect", 100, 2000, env={"PEPV_TEE": "1", "STUBS": "1"}, offset=83)],
-     direct=[oracle("c01_certificate", 30, 300)],
+     direct=[oracle("c01_certificate", 48, 400)],
      trusted=["scripted wrapper (Wrapper subclass) standing for the solver in symbolic streams"],
      assumptions=["that the numbers a real solver returns satisfy KKT is runtime behaviour: monitored by the numeric oracle, not proved"])
 
@@ -133,7 +133,7 @@ prop("C09", ["PepitVerif/Props/C09.lean", "PepitVerif/Math/Certificate.lean", "P
 prop("C10", ["PepitVerif/Props/C10.lean", "PepitVerif/Math/ClassForms.lean"],
      streams=[stream("tree (expression algebra the examples are written in)", "tree", 100, 1000, offset=71),
               stream("cls (class constraints the examples rely on, all parameter regimes)", "cls", 100, 1500, offset=101)],
-     direct=[oracle("c10_examples", 40, 103), oracle("c10_refs", 57, 600), oracle("c10_sweeps", 19, 190), oracle("c10_equivalent", 7, 7), oracle("c10_neighbours", 300, 300)],
+     direct=[oracle("c10_examples", 40, 103), oracle("c10_refs", 57, 600), oracle("c10_sweeps", 19, 190), oracle("c10_equivalent", 12, 12), oracle("c10_neighbours", 300, 300)],
      trusted=["hand transcription of 19 published closed forms and their validity ranges (lean/PepitModel/Ref.lean), validated against the pinned tree",
               "frozen reference tables harness/ref_table.json and harness/ref_neighbours.json (claim tight/upper per example at the suite tuples and at neighbouring tuples: other iteration counts, scaled parameters) generated from the pinned tree"],
      assumptions=["'SDP optimum = closed form for all parameters' is a theorem of the literature per family and is not formalised: this property is decided mostly by correspondence on parameter grids"])
@@ -162,7 +162,7 @@ prop("C13", ["PepitVerif/Props/C13.lean"],
      direct=[oracle("c13_resolve", 32, 240)])
 
 prop("C15", ["PepitVerif/Props/C15.lean", "PepitVerif/Math/PartitionSem.lean"],
-     streams=[stream("cls (block-smooth functions, partitions with 1-3 blocks)", "cls", 250, 4000, offset=37),
+     streams=[stream("cls (block-smooth functions, partitions with 1-3 blocks)", "cls", 250, 4000, env={"PEPV_CLS_FOCUS": "BlockSmoothConvexFunction"}, offset=37),
               stream("collect (partition constraints sent)", "collect", 100, 2000, offset=41)],
      direct=[oracle("c15_blocks", 100, 2000)])
 
